@@ -159,11 +159,18 @@ class C12(Prop):
                   "the property text and RFC 9114 §4.2-4.3 and the parts handed over carry exactly the received values; every "
                   "other list is refused (no panic) and each of the three call sites turns every HeaderError into a "
                   "stream-level H3_MESSAGE_ERROR; HeaderIter yields the pseudo-header fields first, each at most once, in a "
-                  "fixed order, with the caller's values, then the map in its own order")
+                  "fixed order, with the caller's values, then the map in its own order; reading R-12c: the :protocol tokens are "
+                  "written out in the specification and proved equal to the list read from ext.rs, and the crate-independent "
+                  "necessary conditions of a parseable :scheme / :authority / :path (RFC 3986 3.1-3.4, RFC 9114 4.3.1) are proved "
+                  "for every Http whose parsers refuse what they exclude (_partial; the real http crate does not: finding D-12g, "
+                  "negation witness by decide)")
     level_note = ("trusted: Lean kernel + 3 standard axioms; hand-written model tied to the code by the differential run: the real "
                   "Header functions (function level), the real poll_recv_trailers over an in-memory stream, and the real "
                   "server accept+resolve_request / client send_request+recv_response over a private 160-line in-memory "
-                  "transport, against the model on identical case lines; tools/extract.py regenerates the Protocol table, the "
+                  "transport, the real send_request / send_response / send_trailers (client and server) with every byte written "
+                  "on the request stream read back by the specification's RFC 9204 reference decoder (driver op `hdr dec`), and "
+                  "trailers received through the public recv_data + recv_trailers wrappers of client and server, "
+                  "against the model on identical case lines; tools/extract.py regenerates the Protocol table, the "
                   "error codes used at the three call sites and six source decisions the model switches on; http crate: four "
                   "validators modelled concretely (all 256 single-byte names/values/methods and digit triples enumerated against "
                   "the real crate), Scheme/Authority/PathAndQuery/Uri::builder abstract with four listed laws, instantiated per "
@@ -177,12 +184,16 @@ class C12(Prop):
             ":path/:protocol in responses before/after/around :status and without it; valid, repeated, unparseable values; each at the function "
             "level and through the real server/client call site), field counts around and far beyond 24576 (no limit), 24576 / 24577 distinct names (the HeaderMap limit), seeded random lists; every second "
             "request/response case (thorough: every one) again through the real server/client call site; sent side: methods x "
-            "URI shapes x protocol x maps; non-trivial = implementation result is ok/reject/refused/sent "
+            "URI shapes x protocol x maps, every third of these lines (every extended CONNECT) again through the public send call "
+            "(wreq / wresp / wtrlc / wtrls: the written HEADERS frame decoded by the reference decoder), every third trailer section "
+            "again through the public receive wrappers (trlc / trls); non-trivial = implementation result is ok/reject/refused/sent "
             "(not bad-op/bad-verdicts/unbuildable/panic/law-violated)")
     trusted = ["http 1.x crate (HeaderName/HeaderValue/Method/StatusCode concrete models; Scheme/Authority/PathAndQuery/Uri "
                "abstract, verdicts supplied by the real crate on every case line; HeaderMap iteration order = groups in order "
                "of first insertion)",
-               "qpack::encode_stateless/decode_stateless round trip inside the trailers engine (C11)"]
+               "qpack::encode_stateless/decode_stateless round trip inside the trailers engine (C11)",
+               "the w... ops trust H3.Spec.Qpack.specDecode (the RFC 9204 reference decoder of C11's specification) and a ten-line "
+               "frame-header reader in Drv/C12.lean to read what h3 wrote"]
     assumptions = ["HttpLaws: Authority::from_str(\"\") fails; Authority::as_str is the input; Uri::builder with an empty authority "
                    "fails; the builder parses its authority with Authority's parser (each checked on every verdict table)",
                    "http::HeaderMap::try_append fails exactly when it is called on a map that already holds 24576 distinct names "
@@ -190,6 +201,10 @@ class C12(Prop):
                    "the name; any number of values per name; the hash-flooding defence (yellow/red danger states after probe "
                    "sequences of >= 512 slots) is not modelled; checked by boundary cases on the real crate",
                    "caller-built HeaderMap names satisfy HeaderName's invariant (no ':'), values HeaderValue's",
+                   "R-12c: 'parseable' = the http crate's parser accepts the value AND the value satisfies the crate-independent "
+                   "necessary conditions SyntaxOk (scheme = RFC 3986 3.1 grammar; authority: at most one @, numeric port outside an IP "
+                   "literal; path: no #, not empty under http/https); not demanded: no userinfo, non-empty host, port < 65536; open "
+                   "finding D-12g on the first three",
                    "R-12: duplicated pseudo-header fields (which of several different values counts), pseudo-header fields after "
                    "regular ones, missing :scheme/:path are not demanded by the "
                    "property text; demanded (D-12f): 'only defined pseudo-header fields' = defined for this kind of message "
